@@ -11,23 +11,27 @@ through `operator[]`; `Good` = the representation invariant `Inv` between public
 every item configuration `c` (default item, content of uninitialised memory, trivial/owning, inline capacity `sq`).
 The tie to the C++ code (as of /repo c9f3294: findings F22, C16-D1..D6 repaired) is the correspondence run of engine `q`.
 
-COVERED by the refinement theorems (53 of the 66 op kinds of engine `q`): `Op` (one Queue, 27 kinds) —
-AddTail/AddHead (also the forms taking an item of the Queue, and no-arg AddTailAndGet/AddHeadAndGet followed by a write:
-`addTailRaw_write`), RemoveHead/RemoveTail, GetItemAt and the head/tail accessors, ReplaceItemAt, Clear(release),
-EnsureSize/ShrinkToFit on all paths, RemoveHeadMulti/RemoveTailMulti, AddTailMulti/AddHeadMulti/InsertItemsAt from an array,
-from another Queue, from the Queue ITSELF and from a pointer into its own array, operator=, CopyFrom, Swap, RemoveItemAt,
-InsertItemAt, Sort (as a stable sort), Normalize (all branches), ==/StartsWith/EndsWith; `BOp` (several Queues, 6 kinds) —
-any of the above with another register as the Queue argument, SwapContents (inline/inline, inline/heap via
-SwapContentsAux, heap/heap), move assignment (Plunder), move construction, copy construction.
+COVERAGE of the refinement theorems: all 66 op kinds of engine `q`.  `Op` (one Queue, 40 kinds) —
+AddTail/AddHead (also the forms taking an item of the Queue), the no-argument AddTailAndGet/AddHeadAndGet (followed by a
+write: `addTailRaw_write`; without one: `Op.addTailRaw/addHeadRaw`), RemoveHead/RemoveTail, GetItemAt and the head/tail
+accessors, ReplaceItemAt, Clear(release), EnsureSize/ShrinkToFit on all paths, RemoveHeadMulti/RemoveTailMulti,
+AddTailMulti/AddHeadMulti/InsertItemsAt from an array, from another Queue, from the Queue ITSELF and from a pointer into its
+own array, operator=, CopyFrom, Swap, RemoveItemAt, InsertItemAt, Sort (as a stable sort), Normalize (all branches),
+==/StartsWith/EndsWith/`<`, IndexOf, LastIndexOf, RemoveFirstInstanceOf/RemoveLastInstanceOf, RemoveAllInstancesOf,
+InsertItemAtSortedPosition, RemoveSortedDuplicateItems, RemoveDuplicateItems, ReverseItemOrdering (the `…at` engine forms
+pass an item of the Queue by value); `BOp` (several Queues, 6 kinds) — any of the above with another register as the Queue
+argument, SwapContents (inline/inline, inline/heap via SwapContentsAux, heap/heap), move assignment (Plunder), move and
+copy construction.
 
-NOT covered (correspondence run and `std::deque` oracle only) — the exact gap of every theorem named `_partial`:
-the 13 op kinds that search or reorder by item VALUE: IndexOf, LastIndexOf, ReverseItemOrdering,
-InsertItemAtSortedPosition (2 forms), RemoveAllInstancesOf (2 forms), RemoveFirstInstanceOf/RemoveLastInstanceOf
-(4 forms), RemoveSortedDuplicateItems, RemoveDuplicateItems.  Full statement still owed:
-  `∀ q, Good c q → ∀ op : AnyOp, Good c (step q op).1 ∧ abs (step q op).1 = (Spec.step (abs q) op).1 ∧ results equal`
-with `AnyOp` also ranging over those 13.  (`lexicographicalCompare`, i.e. `<`, is a function of the two contents in
-the model, so there is nothing to refine.)  The no-argument AddTailAndGet()/AddHeadAndGet() WITHOUT a following write is
-outside `Op` on purpose: for trivial item types the API leaves the item unspecified; `raw_add_exposed` says what is known.
+The ONE deliberate exclusion, explicit as the hypothesis `Op.specified` / `BOp.specified`: the no-argument
+AddTailAndGet()/AddHeadAndGet() WITHOUT a following write on a TRIVIAL item type — the API documents the new item as
+uninitialised, so there is no ideal result to refine (`raw_add_exposed` says what is known: the Queue is as after
+`AddTail(x)` for the value `x` the slot happened to hold).  For owning item types the call is specified (a default item)
+and covered.  Two modelling conventions: `Swap` with a bad index (an assertion failure in C++) is a refused call
+(`err`, nothing changes); `Sort` is its functional result, a stable sort, and `Normalize`'s cycle-leader rotation a rotation.
+The ideal results of the value-searching calls are in `QSpec.lean`: first/last matching index in the clipped range
+(`findIdx?`), erase at the first/last occurrence, `filter (· ≠ x)`, insertion behind the last item that is not greater,
+collapse of runs of equal adjacent items, reversal of the clipped sub-range.
 -/
 
 namespace Muscle.Props.C16
@@ -61,44 +65,46 @@ theorem step_kernels (head idx size : Nat) (hi : idx + 1 < size) (hh : head < si
 theorem empty_ok : Inv c (Ring.empty c) ∧ (Ring.empty c).abs c = [] :=
   ⟨inv_empty c, abs_of_count_zero c _ rfl⟩
 
-/-- Every covered operation on one Queue, from every `Good` state, yields a `Good` state whose abstraction is the ideal
-    sequence's result, and returns the ideal result.  (`_partial`: 27 op kinds, see the file comment for the 13 missing.) -/
-theorem ring_refines_partial (q : Ring α) (h : Good c q) (op : Op α) :
+/-- Every operation on one Queue, from every `Good` state, yields a `Good` state whose abstraction is the ideal sequence's
+    result, and returns the ideal result.  All 40 single-Queue op kinds; `Op.specified` excludes only the no-argument
+    AddTailAndGet/AddHeadAndGet without a write on a trivial item type (unspecified by the API). -/
+theorem ring_refines (q : Ring α) (h : Good c q) (op : Op α) (hs : op.specified c) :
     Good c (q.step c op).1 ∧ (q.step c op).1.abs c = (Spec.step c.dflt c.junk (q.abs c) op).1 ∧
     (q.step c op).2 = (Spec.step c.dflt c.junk (q.abs c) op).2 :=
-  step_refines c q h op
+  step_refines c q h op hs
 
 /-- The same for calls that involve two Queues: another register as the Queue argument, SwapContents, move assignment,
-    move and copy construction.  (`_partial`: the single-Queue calls inside are those of `Op`.) -/
-theorem bank_refines_partial (b : Nat → Ring α) (h : ∀ i, Good c (b i)) (op : BOp α) :
+    move and copy construction. -/
+theorem bank_refines (b : Nat → Ring α) (h : ∀ i, Good c (b i)) (op : BOp α) (hs : op.specified c) :
     (∀ i, Good c ((bankStep c b op).1 i)) ∧
     (fun i => ((bankStep c b op).1 i).abs c) = (Spec.bankStep c.dflt c.junk (fun i => (b i).abs c) op).1 ∧
     (bankStep c b op).2 = (Spec.bankStep c.dflt c.junk (fun i => (b i).abs c) op).2 :=
-  bankStep_refines c b h op
+  bankStep_refines c b h op hs
 
-/-- For every finite history of covered operations on any number of fresh Queues: the final contents and every result along
-    the way are those of the ideal sequences, and every Queue ends `Good`.  (`_partial`: same gap.) -/
-theorem history_refines_partial (ops : List (BOp α)) :
+/-- For every finite history of (specified) operations on any number of fresh Queues: the final contents and every result
+    along the way are those of the ideal sequences, and every Queue ends `Good`. -/
+theorem history_refines (ops : List (BOp α)) (hs : ∀ op, op ∈ ops → op.specified c) :
     (∀ i, Good c ((bankExec c (fun _ => Ring.empty c) ops).1 i)) ∧
     (fun i => ((bankExec c (fun _ => Ring.empty c) ops).1 i).abs c) = (Spec.bankExec c.dflt c.junk (fun _ => []) ops).1 ∧
     (bankExec c (fun _ => Ring.empty c) ops).2 = (Spec.bankExec c.dflt c.junk (fun _ => []) ops).2 := by
-  have h := bankExec_refines c (fun _ => Ring.empty c) (fun _ => good_empty c) ops
+  have h := bankExec_refines c (fun _ => Ring.empty c) (fun _ => good_empty c) ops hs
   simp only [(empty_ok c).2] at h
   exact h
 
-/-- Failure is reported exactly when the ideal operation is undefined (empty sequence, bad index), and a failing call
-    changes nothing — not even the hidden state.  (`_partial`: same gap.  The hypothesis `Good` is used for `Normalize`
-    only, whose "ok" is its post-condition; every other case holds for arbitrary states.) -/
-theorem failure_exact_partial (q : Ring α) (h : Good c q) (op : Op α) :
+/-- Failure is reported exactly when the ideal operation is undefined (empty sequence, bad index, no such item), and a
+    failing call changes nothing — not even the hidden state.  (`Good` is used for `Normalize`, whose "ok" is its
+    post-condition, and for RemoveFirst/LastInstanceOf; every other case holds for arbitrary states.) -/
+theorem failure_exact (q : Ring α) (h : Good c q) (op : Op α) (hs : op.specified c) :
     ((q.step c op).2 = .err ↔ Spec.undefined (q.abs c) op) ∧ ((q.step c op).2 = .err → (q.step c op).1 = q) :=
-  step_failure c q h op
+  step_failure c q h op hs
 
 /-- What an operation shows afterwards depends only on what was visible before: two Queues with the same visible content
-    (whatever their capacity, head offset and hidden slots) stay indistinguishable.  (`_partial`: same gap.) -/
-theorem hidden_state_invisible_partial (q q' : Ring α) (h : Good c q) (h' : Good c q') (e : q.abs c = q'.abs c) (op : Op α) :
+    (whatever their capacity, head offset and hidden slots) stay indistinguishable. -/
+theorem hidden_state_invisible (q q' : Ring α) (h : Good c q) (h' : Good c q') (e : q.abs c = q'.abs c) (op : Op α)
+    (hs : op.specified c) :
     (q.step c op).1.abs c = (q'.step c op).1.abs c ∧ (q.step c op).2 = (q'.step c op).2 := by
-  have a := step_refines c q h op
-  have b := step_refines c q' h' op
+  have a := step_refines c q h op hs
+  have b := step_refines c q' h' op hs
   rw [a.2.1, a.2.2, b.2.1, b.2.2, e]
   exact ⟨rfl, rfl⟩
 
@@ -148,11 +154,16 @@ theorem raw_add_exposed (q : Ring α) (h : Good c q) :
   ⟨⟨_, addTailRaw_eq c q, fun hcl => addTailRaw_default c hcl q h⟩, ⟨_, addHeadRaw_eq c q, fun hcl => addHeadRaw_default c hcl q h⟩⟩
 
 /-- Owning item types (`IsPerItemClearNecessary()`): no stale item survives outside the window or in the idle inline
-    buffer, whatever covered operation is applied to whatever Queues — including the slots vacated by SwapContentsAux,
-    Plunder and Clear(true).  (`_partial`: same gap.) -/
-theorem no_stale_partial (hcl : c.clear = true) (b : Nat → Ring α) (h : ∀ i, Inv c (b i) ∧ Clean c (b i)) (op : BOp α) :
-    Clean c (Ring.empty c) ∧ ∀ i, Clean c ((bankStep c b op).1 i) :=
-  ⟨clean_empty c hcl, fun i => ((bankStep_refines c b (fun j => ⟨(h j).1, fun _ => (h j).2⟩) op).1 i).2 hcl⟩
+    buffer, whatever operation is applied to whatever Queues — including the slots vacated by SwapContentsAux, Plunder and
+    Clear(true).  (For an owning item type every operation is specified, so there is no side condition.) -/
+theorem no_stale (hcl : c.clear = true) (b : Nat → Ring α) (h : ∀ i, Inv c (b i) ∧ Clean c (b i)) (op : BOp α) :
+    Clean c (Ring.empty c) ∧ ∀ i, Clean c ((bankStep c b op).1 i) := by
+  have hs : op.specified c := by
+    cases op with
+    | on r o => cases o <;> first | exact hcl | exact trivial
+    | fromQ r s f => intro xs; cases f xs <;> first | exact hcl | exact trivial
+    | _ => exact trivial
+  exact ⟨clean_empty c hcl, fun i => ((bankStep_refines c b (fun j => ⟨(h j).1, fun _ => (h j).2⟩) op hs).1 i).2 hcl⟩
 
 /-! Non-vacuity: a concrete history drives a Queue with inline capacity 3 through a reallocation and a
 wrapped window; the hypotheses of the theorems above are met by reachable states. -/
@@ -172,7 +183,7 @@ example : ((Ring.empty cfgC).exec cfgC hist2).1.abs cfgC = [4, 4] ∧ (Spec.exec
 -- the window is wrapped (head > tail) and the queue is more than half full: the rotation branch of Normalize applies
 example : let q := ((Ring.empty cfgI).exec cfgI (hist ++ [.addHead 7, .addHead 8, .addHead 10])).1
     q.isNormalized = false ∧ ¬ (q.count * 2 ≤ q.size) ∧ q.kind = .heap := by decide
--- a failing call exists (so `failure_exact_partial` is not vacuous) …
+-- a failing call exists (so `failure_exact` is not vacuous) …
 example : ((Ring.empty cfgI).step cfgI .removeHead).2 = Res.err := by decide
 -- … and a reachable clean state of an owning type with hidden slots, where growing in place is possible
 example : let q := ((Ring.empty cfgC).exec cfgC [.addTail 1, .addTail 2, .removeTail]).1
@@ -191,5 +202,19 @@ def bhist : List (BOp Nat) :=
    .move 1 2, .on 0 (.ensureSize 1 true 0 true), .on 0 (.ensureSize 3 true 0 false)]
 example : let r := (bankExec cfgC (fun _ => Ring.empty cfgC) bhist).1
     (r 0).abs cfgC = [10, 0, 0] ∧ (r 1).abs cfgC = [10, 11, 12, 13, 14] ∧ (r 2).abs cfgC = [] := by decide
+
+-- the value-searching and reordering calls compute and agree with their list specifications
+def hist4 : List (Op Nat) :=
+  [.addTailMulti [5, 3, 5, 1, 3, 3, 9, 5], .removeHead, .addTail 3, .indexOf 3 1 100, .lastIndexOf 5 100 0, .removeFirst 5,
+   .removeLast 3, .reverse 1 5, .removeAll 9, .insertSortedPos (fun a b => a < b) 4, .removeDups (fun a b => a < b),
+   .addTailRaw, .removeFirst 77]
+example : ((Ring.empty cfgC).exec cfgC hist4).1.abs cfgC = (Spec.exec 0 77 ([] : List Nat) hist4).1 ∧
+    ((Ring.empty cfgC).exec cfgC hist4).2 = (Spec.exec 0 77 ([] : List Nat) hist4).2 ∧
+    ((Ring.empty cfgC).exec cfgC hist4).2.getLast? = some Res.err := by decide
+-- the side condition is met by the no-argument add of an owning type, and only fails for a trivial one
+example : (Op.addTailRaw : Op Nat).specified cfgC ∧ ¬ (Op.addTailRaw : Op Nat).specified cfgI := by
+  constructor
+  · show cfgC.clear = true; rfl
+  · show ¬ cfgI.clear = true; decide
 
 end Muscle.Props.C16
